@@ -30,10 +30,10 @@ fn build() -> Repo {
     g(&dir, &["init", "-q", "."]); g(&dir, &["config", "user.email", "a@b"]); g(&dir, &["config", "user.name", "n"]);
     write(&dir, ".gitignore", "*.tmp\nbuild/\nmonorail-out/\n");
     write(&dir, "a/one.txt", "one\n"); write(&dir, "a/two.txt", "a file with enough content to be recognised as the same file after a move\nline 2\nline 3\n");
-    write(&dir, "b/keep.txt", "keep this content as it is, it is long enough for rename detection too\nsecond line\n"); write(&dir, "b/ü ñ.txt", "x\n"); write(&dir, "c/del.txt", "to be deleted\n"); write(&dir, "c/stay.txt", "stay\n");
+    write(&dir, "b/keep.txt", "keep this content as it is, it is long enough for rename detection too\nsecond line\n"); write(&dir, "b/ü ñ.txt", "x\n"); write(&dir, "c/del.txt", "to be deleted\n"); write(&dir, "c/stay.txt", "stay\n"); write(&dir, "c/again.txt", "tracked in c1 only\n");
     g(&dir, &["add", "-A"]); g(&dir, &["commit", "-q", "-m", "c1"]);
     let c1 = String::from_utf8(g(&dir, &["rev-parse", "HEAD"])).unwrap().trim().to_string();
-    write(&dir, "a/one.txt", "one changed in c2\n"); write(&dir, "d/added in c2.txt", "new\n");
+    write(&dir, "a/one.txt", "one changed in c2\n"); write(&dir, "d/added in c2.txt", "new\n"); std::fs::remove_file(dir.join("c/again.txt")).unwrap();   // c/again.txt: removed by c2 ...
     g(&dir, &["add", "-A"]); g(&dir, &["commit", "-q", "-m", "c2"]);
     let c2 = String::from_utf8(g(&dir, &["rev-parse", "HEAD"])).unwrap().trim().to_string();
     // the working tree / index after c2
@@ -41,6 +41,7 @@ fn build() -> Repo {
     write(&dir, "d/staged new.txt", "staged\n"); g(&dir, &["add", "d/staged new.txt"]);   // created and staged
     write(&dir, "d/untracked file.txt", "untracked\n");                  // untracked
     write(&dir, "d/\"quoted\" name.txt", "q\n");                           // untracked, a name git would escape
+    write(&dir, "c/again.txt", "back again, untracked\n");                 // ... and back as an untracked file: for a checkpoint at c1 it is both a tracked difference and an untracked path
     write(&dir, "b/zz trailing ", "pending\n");                          // untracked, the name ENDS with a blank (a path is reported verbatim)
     write(&dir, "d/ignored.tmp", "ignored\n"); write(&dir, "build/out.bin", "ignored\n");    // ignored
     std::fs::remove_file(dir.join("c/del.txt")).unwrap();                // deleted, unstaged
@@ -70,12 +71,16 @@ async fn vf_git_changes_exact() {
     // pending maps: some entries equal to the current content (to be subtracted), some stale
     let mut pend: HashMap<String, String> = HashMap::new();
     pend.insert("b/ü ñ.txt".into(), sha_hex(b"x\ny\n")); pend.insert("d/untracked file.txt".into(), sha_hex(b"something else")); pend.insert("c/del.txt".into(), String::new()); pend.insert("d/staged new.txt".into(), sha_hex(b"staged\n"));
+    // every entry current, one of them for the path that is listed twice (tracked difference and untracked file)
+    let mut pend_all: HashMap<String, String> = HashMap::new();
+    pend_all.insert("c/again.txt".into(), sha_hex(b"back again, untracked\n")); pend_all.insert("b/ü ñ.txt".into(), sha_hex(b"x\ny\n")); pend_all.insert("c/del.txt".into(), String::new()); pend_all.insert("d/staged new.txt".into(), sha_hex(b"staged\n"));
     // (description, checkpoint id, pending, begin, end)
     let cases: Vec<(&str, String, Option<&HashMap<String, String>>, Option<String>, Option<String>)> = vec![
         ("checkpoint at HEAD, no pending", r.c2.clone(), None, None, None),
         ("checkpoint at an older commit, no pending", r.c1.clone(), None, None, None),
         ("checkpoint at HEAD with pending checksums", r.c2.clone(), Some(&pend), None, None),
         ("checkpoint at an older commit with pending checksums", r.c1.clone(), Some(&pend), None, None),
+        ("checkpoint at an older commit, every pending checksum still current (one of the paths is both a tracked difference and an untracked file)", r.c1.clone(), Some(&pend_all), None, None),
         ("explicit --begin c1 --end c2", r.c2.clone(), None, Some(r.c1.clone()), Some(r.c2.clone())),
         ("explicit --begin c1 (to the working tree)", r.c2.clone(), None, Some(r.c1.clone()), None),
     ];
